@@ -407,6 +407,10 @@ pub struct Run {
     pub status: Status,
     body: Body,
     flag: Arc<FlagWaker>,
+    /// Stream: the waker of a second consumer task; `last_w` = which task polled last.
+    flag2: Arc<FlagWaker>,
+    pub last_w: u8,
+    pub switches: usize,
     tx: Option<mpsc::Sender<InterruptSignal>>,
     pub signalled: bool,
     /// Stream: FnRefs yielded and not yet dropped.
@@ -416,6 +420,19 @@ pub struct Run {
     pub stream_ended: bool,
     pub stream_dropped: bool,
     pub fails_used: usize,
+    /// Stream: number of functions yielded so far.
+    pub yielded: usize,
+}
+
+impl Run {
+    /// Waker flag of the task that polled last (call futures: the only task).
+    fn cur_flag(&self) -> &Arc<FlagWaker> {
+        if self.last_w == 1 {
+            &self.flag2
+        } else {
+            &self.flag
+        }
+    }
 }
 
 pub struct Exec {
@@ -427,20 +444,45 @@ pub struct Exec {
     pub tokio: bool,
     /// a stream poll returned Pending or the stream ended: the consumer task yields here
     pub stream_yield: bool,
+    /// tokio mode: budget units to spend at the start of the i-th task poll (cyclic)
+    pub burn: Vec<u32>,
+    pub task_polls: usize,
 }
 
 thread_local! {
     static RT: tokio::runtime::Runtime = tokio::runtime::Builder::new_current_thread().build().expect("runtime");
+    static BURN: std::cell::RefCell<(mpsc::Sender<()>, mpsc::Receiver<()>)> = std::cell::RefCell::new(mpsc::channel(1024));
+}
+
+/// Spends `units` of the current task's cooperative budget (one successful `poll_recv` each).
+fn burn_budget(units: u32, cx: &mut Context<'_>) {
+    BURN.with(|b| {
+        let mut b = b.borrow_mut();
+        for _ in 0..units {
+            let _ = b.0.try_send(());
+            match b.1.poll_recv(cx) {
+                Poll::Ready(_) => {}
+                Poll::Pending => {
+                    // budget already exhausted: the message stays queued; drain it outside the budget
+                    let _ = b.1.try_recv();
+                    break;
+                }
+            }
+        }
+    });
 }
 
 /// Runs `f` as ONE poll of a tokio task (fresh cooperative budget), then lets the task yield once so that
 /// wake-ups tokio deferred during the poll are delivered before we look at the waker flag.
-pub fn in_task_poll<T>(f: impl FnOnce() -> T) -> T {
+pub fn in_task_poll<T>(burn: u32, f: impl FnOnce() -> T) -> T {
     RT.with(|rt| {
         let mut f = Some(f);
         let mut out: Option<T> = None;
         rt.block_on(std::future::poll_fn(|cx| {
             if let Some(f) = f.take() {
+                if burn > 0 {
+                    burn_budget(burn, cx);
+                }
                 out = Some(f());
                 cx.waker().wake_by_ref();
                 Poll::Pending
@@ -464,6 +506,9 @@ impl Exec {
                     status: Status::NotCalled,
                     body: Body::None,
                     flag: FlagWaker::new(),
+                    flag2: FlagWaker::new(),
+                    last_w: 0,
+                    switches: 0,
                     tx: None,
                     signalled: false,
                     held: BTreeMap::new(),
@@ -471,17 +516,30 @@ impl Exec {
                     stream_ended: false,
                     stream_dropped: false,
                     fails_used: 0,
+                    yielded: 0,
                 })
                 .collect(),
             dead: false,
             tokio: false,
             stream_yield: false,
+            burn: Vec::new(),
+            task_polls: 0,
+        }
+    }
+
+    fn next_burn(&mut self) -> u32 {
+        let i = self.task_polls;
+        self.task_polls += 1;
+        if self.burn.is_empty() {
+            0
+        } else {
+            self.burn[i % self.burn.len()]
         }
     }
 
     pub fn is_stream_step(&self, st: &Step) -> bool {
         let run = match st {
-            Step::Poll { run } | Step::Drop { run, .. } | Step::DropStream { run } => *run,
+            Step::Poll { run, .. } | Step::Drop { run, .. } | Step::DropStream { run } => *run,
             _ => return false,
         };
         run >= 1 && run <= self.runs.len() && self.runs[run - 1].cfg.is_stream()
@@ -494,7 +552,8 @@ impl Exec {
             if self.tokio && self.is_stream_step(&steps[i]) {
                 let me: *mut Exec = self;
                 let idx: *mut usize = &mut i;
-                in_task_poll(|| {
+                let burn = self.next_burn();
+                in_task_poll(burn, || {
                     // SAFETY: single thread; `self` and `i` outlive this synchronous closure
                     let (me, i) = unsafe { (&mut *me, &mut *idx) };
                     me.stream_yield = false;
@@ -509,7 +568,7 @@ impl Exec {
                 // wake-ups that tokio deferred to the end of the task poll (budget exhausted) have been
                 // delivered now: the waker flag of the Pending poll that ended the task poll is read here
                 if self.stream_yield {
-                    let flags: Vec<bool> = self.runs.iter().map(|r| r.flag.get()).collect();
+                    let flags: Vec<bool> = self.runs.iter().map(|r| r.cur_flag().get()).collect();
                     let mut world = self.w.borrow_mut();
                     if let Some(last) = world.log.iter_mut().rev().find(|v| v["ev"] == "spoll") {
                         if last["res"] == "pending" {
@@ -578,8 +637,27 @@ impl Exec {
                 };
                 self.ev(json!({"ev":"call","run":run,"api":cfg.api,"mut":cfg.mutv,"control":cfg.control,
                     "with":cfg.with,"order":cfg.order,"limit":cfg.limit,"strategy":cfg.strategy,"k":cfg.k,
-                    "include":cfg.include,"pre_signal":cfg.pre_signal && cfg.has_channel(),"tx_drop":cfg.tx_drop}));
-                self.w.borrow_mut().cur_run = run;
+                    "include":cfg.include,"pre_signal":cfg.pre_signal && cfg.has_channel(),"tx_drop":cfg.tx_drop,
+                    "sync_ok":cfg.sync_ok,"sync_fail":cfg.sync_fail,"sync_sig":cfg.sync_sig}));
+                {
+                    let mut world = self.w.borrow_mut();
+                    world.cur_run = run;
+                    for &f in &cfg.sync_ok {
+                        world.presync.insert((run, f), true);
+                    }
+                    for &f in &cfg.sync_fail {
+                        world.presync.insert((run, f), false);
+                    }
+                    if let Some(tx) = self.runs[r].tx.as_ref() {
+                        for &f in &cfg.sync_sig {
+                            world.presync_sig.insert((run, f), tx.clone());
+                        }
+                    }
+                    if !cfg.sync_sig.is_empty() {
+                        // the run's one signal is the synchronous function's
+                        self.runs[r].signalled = true;
+                    }
+                }
                 if cfg.is_stream() {
                     let g = self.g;
                     let w = self.w.clone();
@@ -651,7 +729,7 @@ impl Exec {
                     None => false,
                 }
             }
-            Step::Poll { run } => {
+            Step::Poll { run, w } => {
                 let r = run - 1;
                 if r >= self.runs.len() || self.runs[r].status != Status::Live {
                     return false;
@@ -660,7 +738,7 @@ impl Exec {
                     if self.runs[r].stream_dropped {
                         return false;
                     }
-                    self.poll_stream(r);
+                    self.poll_stream(r, w);
                 } else {
                     let spurious = !self.runs[r].flag.get();
                     self.poll_call(r, spurious);
@@ -677,7 +755,7 @@ impl Exec {
                     Some(fn_ref) => {
                         self.w.borrow_mut().cur_run = run;
                         let res = catch_unwind(AssertUnwindSafe(move || drop(fn_ref)));
-                        let woken = self.runs[r].flag.get();
+                        let woken = self.runs[r].cur_flag().get();
                         self.ev(json!({"ev":"drop_ref","run":run,"f":f,"woken":woken}));
                         if let Err(p) = res {
                             self.panicked(r, p);
@@ -774,10 +852,11 @@ impl Exec {
         let mut cx = Context::from_waker(&waker);
         self.w.borrow_mut().cur_run = run;
         let tokio = self.tokio;
+        let burn = if tokio { self.next_burn() } else { 0 };
         let res = match &mut self.runs[r].body {
             Body::Call(f) => {
                 if tokio {
-                    in_task_poll(|| catch_unwind(AssertUnwindSafe(|| f.as_mut().poll(&mut cx))))
+                    in_task_poll(burn, || catch_unwind(AssertUnwindSafe(|| f.as_mut().poll(&mut cx))))
                 } else {
                     catch_unwind(AssertUnwindSafe(|| f.as_mut().poll(&mut cx)))
                 }
@@ -804,9 +883,13 @@ impl Exec {
         }
     }
 
-    fn poll_stream(&mut self, r: usize) {
+    fn poll_stream(&mut self, r: usize, w: u8) {
         let run = r + 1;
-        let flag = self.runs[r].flag.clone();
+        if self.runs[r].last_w != w {
+            self.runs[r].switches += 1;
+        }
+        self.runs[r].last_w = w;
+        let flag = self.runs[r].cur_flag().clone();
         let was_woken = flag.take();
         let spurious = !was_woken && !self.runs[r].may_poll;
         let waker = Waker::from(flag.clone());
@@ -822,7 +905,7 @@ impl Exec {
                 self.runs[r].may_poll = false;
                 self.stream_yield = true;
                 self.ev(json!({"ev":"spoll","run":run,"res":"pending","f":0,"interrupted":false,
-                    "woken":flag.get(),"spurious":spurious,"held":held}));
+                    "woken":flag.get(),"spurious":spurious,"held":held,"w":w}));
             }
             Ok(Poll::Ready(None)) => {
                 self.runs[r].may_poll = false;
@@ -830,7 +913,7 @@ impl Exec {
                 self.stream_yield = true;
                 self.runs[r].status = Status::Returned;
                 self.ev(json!({"ev":"spoll","run":run,"res":"none","f":0,"interrupted":false,
-                    "woken":flag.get(),"spurious":spurious,"held":held}));
+                    "woken":flag.get(),"spurious":spurious,"held":held,"w":w}));
             }
             Ok(Poll::Ready(Some(item))) => {
                 self.runs[r].may_poll = true;
@@ -840,8 +923,9 @@ impl Exec {
                 };
                 let f = fn_ref.as_ref().map(|fr| fr.id).unwrap_or(0);
                 self.ev(json!({"ev":"spoll","run":run,"res":"item","f":f,"interrupted":interrupted,
-                    "woken":flag.get(),"spurious":spurious,"held":held}));
+                    "woken":flag.get(),"spurious":spurious,"held":held,"w":w}));
                 if let Some(fr) = fn_ref {
+                    self.runs[r].yielded += 1;
                     if let Some(old) = self.runs[r].held.insert(f, fr) {
                         // double hand-out: keep the older one alive, the monitor has seen the event
                         std::mem::forget(old);
@@ -862,6 +946,7 @@ impl Exec {
         let mut next_call: Option<usize> = None;
         for (r, run) in self.runs.iter().enumerate() {
             let id = r + 1;
+            let late_ok = x.late == 0 || world.ended_count(id) + run.yielded >= x.late;
             match run.status {
                 Status::NotCalled => {
                     if next_call.is_none() {
@@ -870,17 +955,21 @@ impl Exec {
                 }
                 Status::Live => {
                     if run.cfg.is_stream() {
-                        let pollable = !run.stream_dropped && (run.may_poll || run.flag.get());
+                        let pollable = !run.stream_dropped && (run.may_poll || run.cur_flag().get());
                         let style_ok = match x.stream_style {
                             1 => run.held.is_empty(),
                             2 => run.may_poll || run.held.is_empty(),
                             _ => true,
                         };
                         if pollable && style_ok {
-                            out.push(Step::Poll { run: id });
+                            out.push(Step::Poll { run: id, w: run.last_w });
                         }
-                        if x.spurious_polls && !run.stream_dropped && !(run.may_poll || run.flag.get()) {
-                            out.push(Step::Poll { run: id });
+                        if x.spurious_polls && !run.stream_dropped && !(run.may_poll || run.cur_flag().get()) {
+                            out.push(Step::Poll { run: id, w: run.last_w });
+                        }
+                        // another task takes over the stream: it polls with its own waker, woken or not
+                        if x.multi_waker && !run.stream_dropped && run.switches < 3 {
+                            out.push(Step::Poll { run: id, w: 1 - run.last_w });
                         }
                         if x.drop_stream && !run.stream_dropped {
                             out.push(Step::DropStream { run: id });
@@ -888,10 +977,10 @@ impl Exec {
                     } else {
                         let openable = world.openable(id);
                         let many = openable.len() > 1;
-                        let can_signal = x.signal_inside && x.signals && run.tx.is_some() && !run.signalled;
+                        let can_signal = x.signal_inside && x.signals && run.tx.is_some() && !run.signalled && late_ok;
                         for f in openable {
                             out.push(Step::Open { run: id, f, ok: true, defer: false, signal: false });
-                            if run.cfg.is_try() && run.fails_used < x.max_fail {
+                            if run.cfg.is_try() && run.fails_used < x.max_fail && late_ok {
                                 out.push(Step::Open { run: id, f, ok: false, defer: false, signal: false });
                             }
                             if can_signal {
@@ -899,20 +988,20 @@ impl Exec {
                             }
                             if x.defer && many {
                                 out.push(Step::Open { run: id, f, ok: true, defer: true, signal: false });
-                                if run.cfg.is_try() && run.fails_used < x.max_fail {
+                                if run.cfg.is_try() && run.fails_used < x.max_fail && late_ok {
                                     out.push(Step::Open { run: id, f, ok: false, defer: true, signal: false });
                                 }
                             }
                         }
                         // a deferred step left the flag set: a poll is due
                         if run.flag.get() {
-                            out.push(Step::Poll { run: id });
+                            out.push(Step::Poll { run: id, w: 0 });
                         }
                         if x.aborts {
                             out.push(Step::Abort { run: id });
                         }
                     }
-                    if run.tx.is_some() && !run.signalled && x.signals {
+                    if run.tx.is_some() && !run.signalled && x.signals && late_ok {
                         out.push(Step::Signal { run: id, defer: false });
                     }
                 }
@@ -981,6 +1070,10 @@ pub struct ExploreOpts {
     /// stream consumer: 0 = any interleaving; 1 = sequential (drop each FnRef before polling again);
     /// 2 = batching (poll until Pending, then drop everything held, then poll again)
     pub stream_style: u8,
+    /// stream consumers: a second task (own waker) may take over polling at any time
+    pub multi_waker: bool,
+    /// failing completions and signals are offered only once this many functions of the run have returned
+    pub late: usize,
 }
 
 impl Default for ExploreOpts {
@@ -996,6 +1089,8 @@ impl Default for ExploreOpts {
             signal_inside: false,
             fail_bias: false,
             stream_style: 0,
+            multi_waker: false,
+            late: 0,
         }
     }
 }
